@@ -25,7 +25,11 @@ import time
 from concurrent.futures import ThreadPoolExecutor
 
 VERIF = os.path.dirname(os.path.dirname(os.path.abspath(__file__)))
+# The checks always build /repo.  VERIF_REPO lets the self-tests point the
+# *compiled sources* at a scratch worktree with a mutant applied; prebuilt
+# Aldor libraries, runtime.c and configuration always come from LIBREPO.
 REPO = os.environ.get("VERIF_REPO", "/repo")
+LIBREPO = "/repo"
 BUILD_ROOT = os.path.join(VERIF, ".build")
 
 GUARD = "ALDOR_VERIF"
@@ -91,7 +95,7 @@ def _hash_inputs(repo=None):
         for n in names:
             if n.endswith((".c", ".h", ".h0", ".z", ".msg", ".sed", ".typ")) and not n.endswith(("_t.c",)):
                 files.append(os.path.join(root, n))
-    rt = os.path.join(repo or REPO, "aldor", "aldor", "lib", "libfoam", "al", "runtime.c")
+    rt = os.path.join(LIBREPO, "aldor", "aldor", "lib", "libfoam", "al", "runtime.c")
     if os.path.exists(rt):
         files.append(rt)
     for d in ("sim", "harness"):
@@ -119,7 +123,11 @@ def _regen(repo=None):
     """Regenerate axl_y.c / comsgdb.[ch] in place when their inputs are newer
     (what /repo's own make would do; they are untracked build artefacts)."""
     sd = src_dir(repo)
-    tools = os.path.join(repo or REPO, "aldor", "aldor", "tools", "unix")
+    tools = os.path.join(LIBREPO, "aldor", "aldor", "tools", "unix")
+    if os.path.realpath(sd) != os.path.realpath(src_dir(LIBREPO)):
+        for n in ("axl_y.c", "comsgdb.c", "comsgdb.h"):	# untracked build artefacts
+            if not os.path.exists(os.path.join(sd, n)) and os.path.exists(os.path.join(src_dir(LIBREPO), n)):
+                shutil.copy2(os.path.join(src_dir(LIBREPO), n), os.path.join(sd, n))
 
     def newer(a, b):
         try:
@@ -194,7 +202,7 @@ def build(repo=None, verbose=False):
             jobs.append((os.path.join(sd, c), os.path.join(bd, "comp", c[:-2] + ".o"), [], [sd]))
         for c in rts:
             jobs.append((os.path.join(sd, c), os.path.join(bd, "rts", c[:-2] + ".o"), ["-DFOAM_RTS"], [sd]))
-        rt = os.path.join(repo, "aldor", "aldor", "lib", "libfoam", "al", "runtime.c")
+        rt = os.path.join(LIBREPO, "aldor", "aldor", "lib", "libfoam", "al", "runtime.c")
         if not os.path.exists(rt):
             raise RuntimeError("prebuilt %s missing" % rt)
         jobs.append((rt, os.path.join(bd, "rts", "runtime.o"), ["-DFOAM_RTS"], [sd]))
@@ -257,7 +265,7 @@ def build(repo=None, verbose=False):
 
 def aldor_args(repo=None):
     """Fixed configuration options (these are *input*, identical in every world)."""
-    repo = repo or REPO
+    repo = LIBREPO
     return ["-Nfile=%s/aldor/aldor/src/aldor.conf" % repo,
             "-I%s/aldor/lib/axllib/include" % repo,
             "-Y%s/aldor/lib/axllib/src" % repo,
